@@ -41,7 +41,7 @@ PrecTrees == { B(pr[2], B(pr[1], X, Y), Z) : pr \in { q \in OpPairs : Level(q[1]
 UnaryTrees == { Un(u, X) : u \in {"neg", "not"} } \cup { Un("not", Un("not", X)), Un("neg", N(5)), Un("not", Un("neg", X)) }
         \cup { B(o, Un(u, X), Y) : o \in {"and", "lt", "plus", "times"}, u \in {"neg", "not"} }
         \cup { B(o, X, Un(u, Y)) : o \in {"and", "lt", "plus", "times"}, u \in {"neg", "not"} }
-Atoms == { X, Pro, N(5), N(0), Lit(Fin(32)), Lit(Fin(224)), S("a b"), S(""), Lit(Bool(TRUE)), Lit(Bool(FALSE)), Lit(Null), Lit(Myst) }
+Atoms == { X, Pro, N(5), N(0), Lit(Fin(32)), Lit(Fin(224)), Lit(Tiny(1, TinyText)), Lit(Big(1, "123456789012345")), S("a b"), S(""), Lit(Bool(TRUE)), Lit(Bool(FALSE)), Lit(Null), Lit(Myst) }
 Primaries == { Idx(X, N(0)), Idx(X, Y), Idx(Idx(X, N(1)), S("k")), Idx(Pro, Y), Call("f", <<X>>), Call("f", <<X, N(1)>>), Call("f", <<X, Y, Z>>),
                Call("f", <<Un("not", X), Call("g", <<Y, Z>>)>>), RollE(X), RollE(Idx(X, N(0))), Idx(X, Call("f", <<Y, Z>>)), Idx(X, RollE(Y)) }
 ListTrees == { Bin(o, X, <<Y, Z>>) : o \in AllOps \ {"eq"} } \cup { Bin("plus", X, <<Y, Z, N(1), N(2)>>) }
